@@ -85,6 +85,23 @@ def r3_2(ctx):
         if not any(e.value.base == cbase for e in narrowed):
             ctx.violation(con + ":narrowed-wrong-collection", ew.loc, f"the collection narrowed after allocation (`{narrowed[0].name}`, drawn from `{narrowed[0].value.base}`) is not the one the worker candidates "
                           f"are drawn from (`{cbase}`)")
+        else:
+            # ... and it is the *free* list: whatever the candidates were filtered by on the worker's state alone (FREE), the narrowed
+            # collection was filtered by, too (the unfiltered list of all workers has the same origin but is not what later tasks draw from)
+            def state_filters(cv):
+                out = set()
+                for pn, b in cv.preds:
+                    for cj in (b.values if isinstance(b, ast.BoolOp) and isinstance(b.op, ast.And) else [b]):
+                        reads = {n.attr for n in ast.walk(cj) if isinstance(n, ast.Attribute) and isinstance(n.value, ast.Name) and n.value.id == pn}
+                        others = {n.id for n in ast.walk(cj) if isinstance(n, ast.Name) and n.id != pn and not (n.id in ctx.repo.classes)}
+                        if reads == {"state"} and not others:
+                            out.add(ast.unparse(cj).replace(pn + ".", "_."))
+                return out
+            want = state_filters(cand) if isinstance(cand, CollV) else set()
+            if want and not any(e.value.base == cbase and want <= state_filters(e.value) for e in narrowed):
+                e0 = next(e for e in narrowed if e.value.base == cbase)
+                ctx.violation(con + ":narrowed-wrong-collection", ew.loc, f"the collection narrowed after allocation (`{e0.name}`) is not the list the worker candidates are drawn from: "
+                              f"the candidates are filtered by {sorted(want)}, `{e0.name}` is not")
         st = ew.heap.get((W.name, "state")) if isinstance(W, Obj) else None
         if not (isinstance(st, EnumSet) and st.members <= {"FREE"}):
             ctx.violation(con + ":worker-not-free", ew.loc, "allocated worker is not known to be FREE")
@@ -210,3 +227,8 @@ def run(ctx):
     # "... and is not absent": the per-step state table of workers and facilities
     from .C10 import r10_2
     r10_2(ctx)
+    # a run resumed from a saved file starts from the links the reader rebuilds: both ends of every allocation are saved as IDs and
+    # must be re-linked to the objects of the loaded project, whole-organization wide and unconditionally (C16's codec table)
+    from .C16 import r16_2
+    from ..jsontab import JsonTables
+    r16_2(ctx, JsonTables(ctx))
